@@ -86,6 +86,15 @@ CHECKS = {
          "declared values; the output is then recompiled and labels must be reused (no new records, same Feat)."),
    note=TB + "Order of non-default settings is not fixed by the property. Macintosh-platform records are not examined.",
    design="4/C16"),
+ "C17": dict(
+   technique="Lean 4 theorems on the pseudo-glyph allocation model + Lean readers of the input font's cmap/post/maxp resolving every reference, compared with the FSM (C02 certificate), class map and pseudo data of real output",
+   text=("Proof: Grc.Cm.alloc_pseudo_range, alloc_above_real, alloc_pseudo_ids_distinct — in the allocation model every pseudo-glyph id is strictly above the line-break glyph (itself the first id above "
+         "all real glyphs) and strictly below the phantom glyph, ids are pairwise distinct and numIds = phantom + 1. Tie: the Lean driver parses the INPUT font (cmap 4/12, symbol subtable, post "
+         "format 2, maxp), resolves every glyphid()/unicode()/U+/range/postscript() reference of the generated program (auto-pseudos for code points sharing a glyph), and requires of the real "
+         "output: the FSM certified against exactly those class memberships (C02 theorem), the substitution data (C04), lbGID, maxGlyphID, the sorted duplicate-free Unicode-to-pseudo map and the "
+         "actualForPseudo attribute equal to the model; an unmapped code point must give error 4109 and no font, or be skipped under -g."),
+   note=TB + "cmap lookup is the format's linear-scan semantics (the compiler's binary search is validated against it, not proved). Explicit pseudo() definitions and non-ASCII codepoint() are not generated.",
+   design="4/C17"),
  "C14": dict(
    technique="Lean 4 theorem (skip-bit soundness for all glyph strings and positions) + its hypothesis evaluated on the decoded *skipPasses* attributes of real output + differential shaping of default vs -p builds with libgraphite2",
    text=("Proof: Grc.PB.skip_sound — if every effective rule of a pass has an input item all of whose class members have the pass's skip bit cleared, then on every glyph string whose glyphs all "
